@@ -19,6 +19,7 @@ RULE = ("case = history of <=14 operations over a pool of trajectories (120-atom
         "(exact), no shared memory between pooled objects, precentered-RMSD == from-scratch RMSD whenever the coordinates are in "
         "fact centred, byte snapshot of the input before/after every observer; non-trivial = a centring followed by >=1 indexing / "
         "atom operation before a precentered RMSD is observed, or >=4 structural operations")
+RULE += ('; widened: times of several dtypes (float64, float32 fractional, int64, large float64) so that joined pieces mix them; pieces built without time=; coordinates edited in place before a second centring')
 QUICK = {"examples": 400, "shards": 12, "budget_s": 110}
 THOROUGH = {"examples": 2500, "shards": 16, "budget_s": 1500}
 ASSUMPTIONS = ["functions whose docstring documents in-place modification are not required to leave the input untouched: md.rmsd / "
